@@ -107,7 +107,7 @@ pub fn reach(sys: &Sys, exact_depth_limit: u32) -> ReachResult {
         live: bool,
     }
     let mut info_cache: Vec<Option<Info>> = (0..n_states).map(|_| None).collect();
-    let mut compute = |raw: usize| -> Info {
+    let compute = |raw: usize| -> Info {
         let svals = unpack_all(&stys, raw as u64);
         let mut succ: Vec<u32> = vec![];
         let mut bads: Vec<usize> = vec![];
